@@ -540,9 +540,9 @@ def check_minimize(prog, rep):
                 kind = None
                 if a[0] == comp(0) and is_none(a[1]) and is_none(a[2]):
                     kind = 'L'
-                elif a[0] == comp(0) and is_none(a[1]) and a[2] == comp(2):
+                elif a[0] == comp(0) and is_none(a[1]) and same_opt(a[2], comp(2)):
                     kind = 'LR'
-                elif a[0] == comp(0) and a[1] == comp(1) and is_none(a[2]):
+                elif a[0] == comp(0) and same_opt(a[1], comp(1)) and is_none(a[2]):
                     kind = 'LS'
                 else:
                     bad_s3.append('trial arguments are not a sub-form of the maximized identifier: %s' % e.short(a, 240))
@@ -571,28 +571,21 @@ def check_minimize(prog, rep):
                     bad_s4.append('returns a value without a successful trial')
                     continue
                 lt = tag_of_call(items, lastc)
-                lterm = find_call_term(items, s, lastc)
-                eqf = [v for k, v in items if k[0] in ('pure', 'bin') and lterm is not None and is_eq_of(k, ('pos', lterm), maxv)]
-                if lt != 'pos' or eqf != [True]:
+                lterm = call_result_term(s, items, lastc)
+                if trial_outcome(items, lterm, lt, maxv) != 'success':
                     bad_s4.append('form %s returned without having checked that it maximizes back to the maximized identifier' % lastk)
                 rt = s.ret[3][0]
                 if not (rt[0] == 'tuple' and tuple(rt[1]) == tuple(lastc[2])):
                     bad_s4.append('returned form %s differs from the trial %s that was checked' % (e.short(rt, 160), e.short(lastc[2], 160)))
                 # earlier trials must have failed
                 for k, c in seq[:-1]:
-                    ct_ = tag_of_call(items, c)
-                    cterm = find_call_term(items, s, c)
-                    eqs = [v for kk, v in items if kk[0] in ('pure', 'bin') and cterm is not None and is_eq_of(kk, ('pos', cterm), maxv)]
-                    if not (ct_ == 'neg' or eqs == [False]):
+                    if trial_outcome(items, call_result_term(s, items, c), tag_of_call(items, c), maxv) != 'failure':
                         bad_s3.append('trial %s succeeded but a later form was returned' % k)
             else:
                 if kinds != expect:
                     bad_s5.append('gives up after trials %s, expected %s' % (kinds, expect))
                 for k, c in seq:
-                    ct_ = tag_of_call(items, c)
-                    cterm = find_call_term(items, s, c)
-                    eqs = [v for kk, v in items if kk[0] in ('pure', 'bin') and cterm is not None and is_eq_of(kk, ('pos', cterm), maxv)]
-                    if not (ct_ == 'neg' or eqs == [False]):
+                    if trial_outcome(items, call_result_term(s, items, c), tag_of_call(items, c), maxv) != 'failure':
                         bad_s5.append('trial %s succeeded but "unchanged" is reported' % k)
         res['trials'] = len([k for k in trial_kinds if k])
         site = b['span']
@@ -607,6 +600,19 @@ def check_minimize(prog, rep):
     return res
 
 
+def same_opt(a, b):
+    """a designates the optional component b: b itself, or `Some(payload of b)` (a present component unwrapped and wrapped again)"""
+    if a == b:
+        return True
+    if a[0] == 'adt' and a[2] == 'Some' and len(a[3]) == 1:
+        p = a[3][0]
+        while p[0] in ('cref',):
+            p = p[1]
+        if p == ('pos', b) or (p[0] == 'pos' and p[1] == b):
+            return True
+    return False
+
+
 def is_none(v):
     return v[0] == 'adt' and v[2] == 'None'
 
@@ -615,6 +621,32 @@ def component(maxv, i):
     if maxv[0] == 'tuple':
         return maxv[1][i]
     return ('fld', maxv, i)
+
+
+def call_result_term(s, items, callev):
+    """the term standing for the result of a call event: from the tag fact about it, else from the `def` of its destination"""
+    t = find_call_term(items, s, callev)
+    if t is not None:
+        return t
+    for ev in s.state.events:
+        if ev[0] == 'def' and isinstance(ev[2], tuple) and ev[2] and ev[2][0] == 'call' and ev[2][1] == callev[1] and tuple(ev[2][2]) == tuple(callev[2]):
+            return ev[2]
+    return None
+
+
+def trial_outcome(items, cterm, tagv, maxv):
+    """'success' | 'failure' | None for `maximize(form) == Some(max)`, whichever way it was tested:
+    if let Some(t) = maximize(form) { if t == max .. }   or   maximize(form) == Some(max)"""
+    if cterm is None:
+        return 'failure' if tagv == 'neg' else None
+    eq1 = [v for kk, v in items if kk[0] in ('pure', 'bin') and is_eq_of(kk, ('pos', cterm), maxv)]
+    some_max = ('adt', 'core::std::option::Option', 'Some', (maxv,))
+    eq2 = [v for kk, v in items if kk[0] in ('pure', 'bin') and is_eq_of(kk, cterm, some_max)]
+    if (tagv == 'pos' and eq1 == [True]) or eq2 == [True]:
+        return 'success'
+    if tagv == 'neg' or eq1 == [False] or eq2 == [False]:
+        return 'failure'
+    return None
 
 
 def tag_of_call(items, callev):
